@@ -4,6 +4,7 @@ import (
 	"fmt"
 	"go/token"
 	"sort"
+	"strings"
 
 	"golang.org/x/tools/go/ssa"
 
@@ -44,6 +45,9 @@ type deepView struct {
 	frames   map[string]*frame
 	order    []dinstr
 	nextSeq  int
+	// stopAt: callees whose results resolve() keeps symbolic (the rule wants to
+	// see the call itself); their frames are still part of the view
+	stopAt map[string]bool
 }
 
 type dinstr struct {
@@ -72,6 +76,36 @@ func (d *deepView) childFrame(fr *frame, call ssa.CallInstruction, callee *ssa.F
 	return f
 }
 
+// closureFrame: the frame of a function literal created at instruction at in fr.
+func (d *deepView) closureFrame(fr *frame, at ssa.Instruction, cf *ssa.Function) *frame {
+	id := fmt.Sprintf("%s>%s@%d", fr.id, name(cf), ir.InstrPos(at))
+	if f, ok := d.frames[id]; ok {
+		return f
+	}
+	f := &frame{fn: cf, site: nil, parent: fr, depth: fr.depth, id: id}
+	d.frames[id] = f
+	return f
+}
+
+// closureFrameOf returns the frame of a function-literal value (MakeClosure or
+// plain function) as seen from fr, resolving parameters that carry closures.
+func (d *deepView) closureFrameOf(v ssa.Value, fr *frame) *frame {
+	r := d.resolve(ir.StripConv(v), fr)
+	switch x := ir.StripConv(r.v).(type) {
+	case *ssa.MakeClosure:
+		if cf, ok := x.Fn.(*ssa.Function); ok {
+			return d.frames[fmt.Sprintf("%s>%s@%d", r.fr.id, name(cf), ir.InstrPos(x))]
+		}
+	case *ssa.Function:
+		for id, f := range d.frames {
+			if f.fn == x && strings.HasPrefix(id, r.fr.id+">") {
+				return f
+			}
+		}
+	}
+	return nil
+}
+
 // inlinable: a library function the view looks through.
 func (d *deepView) inlinable(callee *ssa.Function) bool {
 	return callee != nil && callee.Blocks != nil && d.c.P.InLib(callee)
@@ -92,9 +126,28 @@ func (d *deepView) walk(fr *frame, onStack map[*ssa.Function]bool) {
 	for _, i := range ins {
 		d.order = append(d.order, dinstr{i, fr, d.nextSeq})
 		d.nextSeq++
+		// closures created here (typically handed to a library function that calls
+		// them back) are part of the view: their free variables resolve to this frame
+		if mc, isMC := i.(*ssa.MakeClosure); isMC && fr.depth < d.maxDepth+6 {
+			if cf, ok := mc.Fn.(*ssa.Function); ok && !onStack[cf] {
+				child := d.closureFrame(fr, mc, cf)
+				onStack[cf] = true
+				d.walk(child, onStack)
+				delete(onStack, cf)
+			}
+		}
 		call, ok := i.(ssa.CallInstruction)
 		if !ok || fr.depth >= d.maxDepth {
 			continue
+		}
+		// plain function literals without captures passed as arguments
+		for _, a := range call.Common().Args {
+			if cf, isFn := ir.StripConv(a).(*ssa.Function); isFn && cf.Parent() != nil && !onStack[cf] && d.c.P.InLib(cf) {
+				child := d.closureFrame(fr, i, cf)
+				onStack[cf] = true
+				d.walk(child, onStack)
+				delete(onStack, cf)
+			}
 		}
 		if _, isGo := i.(*ssa.Go); isGo {
 			continue
@@ -195,29 +248,63 @@ func (d *deepView) resolve(v ssa.Value, fr *frame) dval {
 				return dval{v, fr}
 			}
 			child := d.frameOfCall(fr, call)
-			if child == nil {
+			if child == nil || d.stopAt[ir.CallID(call)] {
 				return dval{v, fr}
 			}
-			rets := ir.Returns(child.fn)
-			if len(rets) != 1 || x.Index >= len(rets[0].Results) {
+			rv := uniqueResult(child.fn, x.Index)
+			if rv == nil {
 				return dval{v, fr}
 			}
-			v, fr = rets[0].Results[x.Index], child
+			v, fr = rv, child
 		case *ssa.Call:
 			child := d.frameOfCall(fr, x)
-			if child == nil {
+			if child == nil || d.stopAt[ir.CallID(x)] {
 				return dval{v, fr}
 			}
-			rets := ir.Returns(child.fn)
-			if len(rets) != 1 || len(rets[0].Results) != 1 {
+			rv := uniqueResult(child.fn, 0)
+			if rv == nil || child.fn.Signature.Results().Len() != 1 {
 				return dval{v, fr}
 			}
-			v, fr = rets[0].Results[0], child
+			v, fr = rv, child
 		default:
 			return dval{v, fr}
 		}
 	}
 	return dval{v, fr}
+}
+
+// resolveConv resolves through frames and value-preserving conversions
+// alternately until nothing changes.
+func (d *deepView) resolveConv(v ssa.Value, fr *frame) dval {
+	r := dval{v, fr}
+	for i := 0; i < 8; i++ {
+		n := d.resolve(ir.StripConv(r.v), r.fr)
+		if n.same(r) {
+			break
+		}
+		r = n
+	}
+	return r
+}
+
+// uniqueResult: the one value fn returns at result index idx, ignoring returns
+// that yield a nil/zero constant there (the failure exits of (T, error) helpers).
+func uniqueResult(fn *ssa.Function, idx int) ssa.Value {
+	var out ssa.Value
+	for _, r := range ir.Returns(fn) {
+		if idx >= len(r.Results) {
+			return nil
+		}
+		v := r.Results[idx]
+		if k, ok := v.(*ssa.Const); ok && (k.Value == nil || k.IsNil()) {
+			continue
+		}
+		if out != nil && out != v {
+			return nil
+		}
+		out = v
+	}
+	return out
 }
 
 // eachStoreTo visits the stores whose address is exactly cell a (a local of
@@ -330,7 +417,8 @@ func (d *deepView) storesToField(fieldID string) []dinstr {
 // bound along the frame chain, so that derivation crosses helper boundaries
 // exactly along this activation.
 func (d *deepView) sliceDeep(v ssa.Value, fr *frame) map[ssa.Value]bool {
-	s := d.c.Slicer()
+	// parameters are bound along the frame chain only (no call-graph binding)
+	s := ir.NewSlicer(d.c.P.InModule, nil, d.c.Depth)
 	s.BindRoot = false
 	out := map[ssa.Value]bool{}
 	seen := map[string]bool{}
@@ -344,12 +432,21 @@ func (d *deepView) sliceDeep(v ssa.Value, fr *frame) map[ssa.Value]bool {
 			return
 		}
 		seen[k] = true
-		sl := d.c.Slicer().Slice(v)
+		sl := s.Slice(v)
 		for x := range sl {
 			out[x] = true
-			if p, ok := x.(*ssa.Parameter); ok && p.Parent() == fr.fn && fr.parent != nil {
-				r := d.resolve(p, fr)
-				if r.v != x || r.fr != fr {
+			if p, ok := x.(*ssa.Parameter); ok {
+				// the parameter belongs to this frame or (reached through captured
+				// variables) to an enclosing one
+				pf := fr
+				for pf != nil && pf.fn != p.Parent() {
+					pf = pf.parent
+				}
+				if pf == nil || pf.parent == nil {
+					continue
+				}
+				r := d.resolve(p, pf)
+				if r.v != x || r.fr != pf {
 					rec(r.v, r.fr, depth+1)
 				}
 			}
